@@ -15,9 +15,20 @@ import (
 // complete the group within the encoder's continuity window -- and the parity packet is as long as the first data packet.
 // With VERIF_WITNESS_EXPECT=held the test fails if the oversize parity packet IS seen (used after a repair).
 func TestWitnessParityAfterShrink(t *testing.T) {
+	// second case: an AEAD cipher and an MTU lowered by less than the 16-byte tag -- the length that counts is the sealed one
+	for _, wc := range []struct {
+		cipher string
+		msgs   []int
+		newMtu int
+	}{{"nil", []int{200, 200, 200, 200, 200}, 576}, {"aes-gcm", []int{247, 247, 247, 247, 250}, 1390}, {"aes-128", []int{250, 250, 250, 250, 250}, 1395}} {
+		witnessParityAfterShrink(t, wc.cipher, wc.msgs, wc.newMtu)
+	}
+}
+
+func witnessParityAfterShrink(t *testing.T, cipher string, msgs []int, newMtu int) {
 	vh.Bubble(t, 1000, 2, func(e *vh.Env) {
 		w := NewWorld(e)
-		cfg := SessCfg{Cipher: "nil", D: 3, P: 1, Mtu: 1400, SndWnd: 128, RcvWnd: 128, NoDelay: 1, Interval: 10, Resend: 2, Nc: 1,
+		cfg := SessCfg{Cipher: cipher, D: 3, P: 1, Mtu: 1400, SndWnd: 128, RcvWnd: 128, NoDelay: 1, Interval: 10, Resend: 2, Nc: 1,
 			Stream: false, WriteDelay: true, AckNoDelay: true}
 		l, lconn := w.Listen(srvAddr, cfg)
 		w.Mon.Register(srvAddr, cliAddr, 77, cfg, 0)
@@ -36,17 +47,17 @@ func TestWitnessParityAfterShrink(t *testing.T) {
 				}
 			}
 		}()
-		msg := make([]byte, 200)
-		for i := 0; i < 5; i++ {
-			cli.Write(msg)
+		msg := make([]byte, 300)
+		for _, n := range msgs {
+			cli.Write(msg[:n])
 		}
 		time.Sleep(100 * time.Millisecond)
 		synctest.Wait()
 		if ws := cli.VerifKCPState(); len(ws.SndBuf) != 0 || len(ws.SndQueue) != 0 {
 			t.Fatalf("witness setup: data not acknowledged yet (%+v)", ws)
 		}
-		ok := cli.SetMtu(576)
-		w.Mon.SetMtu(cliAddr, srvAddr, 576)
+		ok := cli.SetMtu(newMtu)
+		w.Mon.SetMtu(cliAddr, srvAddr, newMtu)
 		at := e.NowMs()
 		time.Sleep(20 * time.Millisecond)
 		cli.Write(msg[:10])
@@ -55,11 +66,19 @@ func TestWitnessParityAfterShrink(t *testing.T) {
 		time.Sleep(100 * time.Millisecond)
 		synctest.Wait()
 		w.Mon.mu.Lock()
-		over := 0
+		over, big := 0, 0
 		for _, o := range w.Mon.Obs {
-			if o.Src == cliAddr && o.T > at && o.Len > 576 {
+			if o.Src == cliAddr && o.T <= at && o.Len > big {
+				big = o.Len
+			}
+		}
+		if big <= newMtu {
+			t.Errorf("witness setup (%s): no data packet above the new MTU %d was sent before the change (largest %d)", cipher, newMtu, big)
+		}
+		for _, o := range w.Mon.Obs {
+			if o.Src == cliAddr && o.T > at && o.Len > newMtu {
 				over++
-				t.Logf("t=%d ms (SetMtu(576)=%v at %d): datagram of %d bytes, FEC type %#x, id %d, openparity=%v", o.T, ok, at, o.Len, o.FecType, o.FecSeq, o.OpenPar)
+				t.Logf("%s t=%d ms (SetMtu(%d)=%v at %d): datagram of %d bytes, FEC type %#x, id %d, openparity=%v", cipher, o.T, newMtu, ok, at, o.Len, o.FecType, o.FecSeq, o.OpenPar)
 				if !o.OpenPar {
 					t.Errorf("an oversize datagram that is not the parity of the group open at the shrink")
 				}
@@ -72,7 +91,7 @@ func TestWitnessParityAfterShrink(t *testing.T) {
 		cconn.Close()
 		time.Sleep(12 * time.Second)
 		if !ok {
-			t.Fatalf("witness setup: SetMtu(576) was refused")
+			t.Fatalf("witness setup: SetMtu(%d) was refused", newMtu)
 		}
 		expectHeld := vh.EnvStr("VERIF_WITNESS_EXPECT", "finding") == "held"
 		if expectHeld && over > 0 {
